@@ -116,7 +116,11 @@ void report_update_node(struct uftrace_report_node *node, struct uftrace_task_re
 		if (check == NULL)
 			break;
 
-		if (check->addr == fstack->addr) {
+		/*
+		 * frames inherited at fork() (or when the data starts at depth > 0)
+		 * never saw their ENTRY record: their addr is still 0 and says nothing.
+		 */
+		if (check->addr && check->addr == fstack->addr) {
 			recursive = true;
 			break;
 		}
